@@ -507,9 +507,7 @@ func (h *Hist) Actions() map[string]func(*rapid.T) {
 				}
 				return
 			}
-			if holdsStoreLock(sy.R) {
-				h.RotationInReleaseWrite++
-			}
+			rInWrite := holdsStoreLock(sy.R)
 			c.Add("rotateDuringStateWrite")
 			pops := w.St.BL.PopFronts
 			for i := 0; i < 24 && w.St.BL.PopFronts == pops && !w.Closed; i++ {
@@ -527,6 +525,9 @@ func (h *Hist) Actions() map[string]func(*rapid.T) {
 				w.FinishPut(u)
 			}
 			if w.St.BL.PopFronts != pops {
+				if rInWrite {
+					h.RotationInReleaseWrite++
+				}
 				h.RotationInStateWrite++
 			}
 		}
